@@ -270,14 +270,14 @@ def check_object(cls, obj, L):
 
 
 def observed_defaults(pairs, obj, L):
-    """token of every configuration entry the case did not supply"""
+    """token of every entry of the exposed configuration (the specification picks the ones it has a documented default for:
+    the omitted options and the options supplied with an explicit "use the default" value)"""
     if not isinstance(getattr(obj, 'config', None), dict):
         return None
-    given = {o for o, _ in pairs}
-    return {k: tok(k, v, L) for k, v in obj.config.items() if k not in given and isinstance(k, str)}
+    return {k: tok(k, v, L) for k, v in obj.config.items() if isinstance(k, str)}
 
 
-def judge_config(part, cls, pairs, expect, defaults, L):
+def judge_config(part, cls, pairs, expect, defaults, L, equiv=()):
     """run one abstract configuration through the code; -> (problems, observation)
     problems: list of (aspect, class, expected, observed)"""
     first, second = construct_both(cls, pairs, L)
@@ -295,6 +295,7 @@ def judge_config(part, cls, pairs, expect, defaults, L):
             probs.append(('verdict', 'rejects-in-domain', 'accept', '%s form raised %s' % (form, r[1])))
         elif expect == 'reject' and r[0] != 'reject':
             probs.append(('verdict', 'accepts-out-of-domain', 'reject', '%s form accepted' % form))
+        # expect == 'marker': refused with a configuration error, or accepted exactly like omission (checked below)
     if second is not None and first[0] != 'other' and second[0] != 'other':
         if first[0] != second[0]:
             probs.append(('kwargs', 'kwargs-dict-differ', 'same outcome', 'dict %s, kwargs %s' % (first[0], second[0])))
@@ -317,6 +318,18 @@ def judge_config(part, cls, pairs, expect, defaults, L):
         obs.update(facts)
         if facts['idempotent'] is False:
             probs.append(('idempotent', 'not-idempotent', 'Cls(obj.config) == obj', facts.get('idem_detail')))
+        if equiv:       # options supplied with an explicit "use the default" value: the object must equal the one built without them
+            rest = [p for p in pairs if p[0] not in equiv]
+            base, _ = construct_both(cls, rest, L)
+            if base[0] != 'accept':
+                probs.append(('omission', 'explicit-default-differs-from-omission', 'same object as with %s omitted' % sorted(equiv),
+                              'construction without them raised %s' % base[1]))
+            elif not (type(base[2]) is type(obj) and deq(base[2].config, obj.config)):
+                diff = sorted(k for k in set(obj.config) | set(base[2].config)
+                              if isinstance(obj.config, dict) and not deq(obj.config.get(k), base[2].config.get(k))) \
+                    if isinstance(obj.config, dict) and isinstance(base[2].config, dict) else ['(whole configuration)']
+                probs.append(('omission', 'explicit-default-differs-from-omission', 'same object as with %s omitted' % sorted(equiv),
+                              'configurations differ in %s' % diff))
     return probs, obs
 
 
@@ -656,6 +669,8 @@ def interval_config(c):
     elif c['wrap'] == 'dict':
         val = {'expect': val, 'msg': MSG}
     cfg = {'answers': val}
+    if c.get('sub') == 'none':
+        cfg['subgrader'] = None          # the explicit "use the default" marker
     if c['curly']:
         cfg.update(opening_brackets='[({', closing_brackets='])}')
     return cfg
@@ -755,8 +770,10 @@ def replay_states(states, extra):
         if kind in ('base', 'single', 'mathx'):
             cls = c['cls']
             pairs = sorted(tuple(p) for p in out['cfg'])
-            probs, obs = judge_config(kind, cls, pairs, expect, [tuple(d) for d in out['defaults']], L)
+            probs, obs = judge_config(kind, cls, pairs, expect, [tuple(d) for d in out['defaults']], L, set(out.get('equiv') or ()))
             case = {'part': kind, 'cls': cls, 'cfg': [list(p) for p in pairs]}
+            if out.get('equiv'):
+                case['equiv'] = sorted(out['equiv'])
             if kind == 'single':
                 res['table'].setdefault(cls, {}).setdefault(c['opt'], []).append([c['val'], expect])
                 res['keys'].add((cls, c['opt'], expect))
@@ -791,7 +808,7 @@ def replay_states(states, extra):
         elif kind == 'interval':
             obs = observe_interval(c, L)
             probs = judge_simple(expect, obs, 'intervalgrader-answers')
-            case = {'part': kind, 'case': {k: c[k] for k in ('form', 'open', 'close', 'nbounds', 'curly', 'wrap')}}
+            case = {'part': kind, 'case': {k: c[k] for k in ('form', 'open', 'close', 'nbounds', 'curly', 'wrap', 'sub')}}
             res['keys'].add((kind, expect, c['form'], c['wrap'], c['nbounds']))
         elif kind == 'square':
             obs = observe_square(c, L)
@@ -865,7 +882,7 @@ def rand_records(rng, n, table):
             k = min(len(opts), rng.randint(1, 6))
             pairs = []
             for o in rng.sample(opts, k):
-                good = [v for v, e in table[cls][o] if e == 'accept' and v != 'ABSENT']
+                good = [v for v, e in table[cls][o] if e in ('accept', 'marker') and v != 'ABSENT']
                 bad = [v for v, e in table[cls][o] if e == 'reject' and v != 'ABSENT']
                 pool = good if (good and (not bad or rng.random() < .93)) else bad
                 if pool:
@@ -945,7 +962,8 @@ def rand_records(rng, n, table):
             syms = ['lsq', 'lpar', 'lcub', 'rsq', 'rpar', 'rcub'] + (['two'] if form == 'list' else [])
             recs.append({'id': i, 'ev': 'interval', 'form': form, 'open': rng.choice(['lsq', 'lpar'] * 3 + syms),
                          'close': rng.choice(['rsq', 'rpar'] * 3 + syms), 'nbounds': rng.choice([2, 2, 2, 1, 3, 4, 5]),
-                         'curly': rng.random() < .5, 'wrap': rng.choice(['bare', 'tuple', 'dict'])})
+                         'curly': rng.random() < .5, 'wrap': rng.choice(['bare', 'tuple', 'dict']),
+                         'sub': rng.choice(['omitted', 'omitted', 'none'])})
         elif r < .96:
             recs.append({'id': i, 'ev': 'nested', 'chain': [rng.choice(sorted(DELIM)) for _ in range(rng.randint(1, 5))]})
         else:
@@ -1012,7 +1030,7 @@ def report_trace(ctx, r, clause):
     head = clause.split(':')[0]
     klass = refine(CLAUSE_CLASS.get(head) or 'non-config-exception:%s' % r.get('exc'), r)
     case = {k: r[k] for k in r if k in ('cls', 'cfg', 'ctx', 'ans', 'la', 'chain', 'ordered', 'subs', 'one', 'grouping', 'nans', 'ntup',
-                                        'form', 'open', 'close', 'nbounds', 'curly', 'wrap',
+                                        'form', 'open', 'close', 'nbounds', 'curly', 'wrap', 'sub',
                                         'symmetry', 'traceless', 'determinant', 'complex', 'dimension')}
     sig = {'part': 'trace:' + r['ev']}
     sig.update(case)
@@ -1128,6 +1146,10 @@ def replay(ctx, rec):
             return facts['idempotent'] is not False
         if aspect == 'kwargs':
             return second is None or (second[0] == 'accept' and deq(first[2].config, second[2].config))
+        if aspect == 'omission':
+            base, _ = construct_both(sig['cls'], [p for p in pairs if p[0] not in set(sig.get('equiv', []))], L)
+            print('now     : without %s -> %s' % (sig.get('equiv'), base[:2]))
+            return base[0] == 'accept' and type(base[2]) is type(first[2]) and deq(base[2].config, first[2].config)
         if aspect in ('defaults', 'default', 'missing'):
             od = observed_defaults(pairs, first[2], L) or {}
             text = str(expected)
